@@ -18,6 +18,7 @@ def corpus(ctx):
     rng = ctx.rng('connsem')
     fam = family()
     small = [s for s in fam if len(s['src'])*len(s['tgt']) == 1]      # all 1x1 settings: always complete
+    small = small + gen_conn.high_degree_family()
     if ctx.quick:
         return small + rng.sample(fam, 500) + [gen_conn.random_sdesc(rng) for _ in range(600)]
     return small + rng.sample(fam, 20000) + [gen_conn.random_sdesc(rng) for _ in range(8000)]
